@@ -1,0 +1,14 @@
+//go:build verif
+
+package metadata
+
+//@ func NewContext :: ctx -> newCtx, md
+//@   props C06
+//@   assigns nothing
+//@   ensures [C06:fresh-record] md != nil && fresh(md) && newCtx != nil && ctxMeta(newCtx) == md && ctxParent(newCtx) == ctx
+//@   ensures [C06:empty-record] len(md.ClientHelloRecord) == 0 && len(md.HTTP2Frames.Settings) == 0 && md.HTTP2Frames.WindowUpdateIncrement == 0 && len(md.HTTP2Frames.Priorities) == 0 && len(md.HTTP2Frames.Headers) == 0
+
+//@ func FromContext :: ctx -> md, ok
+//@   trusted
+//@   pure
+//@   ensures ok ==> md == ctxMeta(ctx) && md != nil
